@@ -40,6 +40,8 @@ type verifNet struct {
 	filtered  []bool // rejected by the node filter
 	unknown   int    // queries to addresses that are not in the network
 	stopped   bool
+	// label of the "stalled while the frontier holds a contact the lookup would query" assertion
+	staleLabel string
 }
 
 func verifNodeAddr(i int) krpc.NodeAddr {
@@ -160,7 +162,11 @@ func (n *verifNet) checkStall(op *Operation, k int) {
 	op.mu.Lock()
 	stale := op.outstanding > 0 || op.haveQuery()
 	op.mu.Unlock()
-	verifAssert(!stale, "C03: stale stalled offer - the lookup reports stalled while its own frontier holds a contact it would query")
+	label := n.staleLabel
+	if label == "" {
+		label = "C03: stale stalled offer - the lookup reports stalled while its own frontier holds a contact it would query"
+	}
+	verifAssert(!stale, label)
 	if stale {
 		return
 	}
@@ -416,6 +422,65 @@ func VerifTrav_StopCancelsInFlight() {
 	verifAssert(entered == 1, "C04 harness: the slow node is being queried")
 	op.Stop()
 	<-op.Stopped()
+	verifReach("end")
+}
+
+// Contacts handed to the lookup after it has stalled (late AddNode / AddNodes, as Server.refreshBucket
+// does on every bucket change): four nodes that list nobody, any one of them possibly rejected by the
+// node filter; a first wave (any proper non-empty subset) is added, the lookup stalls; the rest arrive
+// through AddNode or AddNodes, with or without IDs, and the lookup is waited for again. At both stalls
+// every learned, filter-passing contact has been queried unless the result set is full and the
+// contact is farther than its farthest member (or of unknown ID); a filtered address is never queried.
+// No preemption: without the run loop being preempted, a stalled report with a queryable contact in
+// the frontier is not the hand-off race recorded as a known finding.
+func VerifTrav_LateAdd() {
+	const count, k = 4, 2
+	n := verifNewNet(verifTarget, count)
+	n.staleLabel = "C03: the lookup reports stalled although a contact handed to it after an earlier stall is unqueried and would be queried"
+	if f := verifChoice(-1, count-1); f >= 0 {
+		n.filtered[f] = true
+	}
+	op := Start(OperationInput{Target: n.target, Alpha: 1, K: k, DoQuery: n.doQuery, NodeFilter: n.nodeFilter,
+		DataFilter: func(d any) bool { _, ok := d.(string); return ok }})
+	first := verifChoice(1, 1<<count-2)
+	ids1, ids2 := verifNondetBool(), verifNondetBool()
+	for i := 0; i < count; i++ {
+		if first>>uint(i)&1 != 0 {
+			n.seed(op, i, ids1)
+		}
+	}
+	<-op.Stalled()
+	n.checkStall(op, k)
+	verifReach("stall1")
+	if verifNondetBool() {
+		for i := 0; i < count; i++ {
+			if first>>uint(i)&1 == 0 {
+				n.seed(op, i, ids2)
+			}
+		}
+	} else {
+		var late []types.AddrMaybeId
+		for i := 0; i < count; i++ {
+			if first>>uint(i)&1 == 0 {
+				a := types.AddrMaybeId{Addr: n.nodes[i].addr.ToNodeAddrPort()}
+				if ids2 {
+					a.Id = generics.Some(n.nodes[i].id.Int160())
+					n.learnedID[i] = true
+				}
+				n.learned[i] = true
+				late = append(late, a)
+			}
+		}
+		op.AddNodes(late)
+	}
+	<-op.Stalled()
+	n.checkStall(op, k)
+	verifReach("stall2")
+	op.Stop()
+	<-op.Stopped()
+	n.stopped = true
+	n.checkDiscipline(1)
+	n.checkClosest(op, k, false)
 	verifReach("end")
 }
 
